@@ -53,10 +53,14 @@ class Report:
         self.extra = {}
 
     # -- recording ---------------------------------------------------------
+    flavour = None   # set by the driver loop: which build flavour's MIR is being analysed
+
     def finding(self, key, detail):
         for k, _ in self.findings:
             if k == key:
                 return
+        if self.flavour:
+            detail = '%s [first seen in the %s-flavour MIR]' % (detail, self.flavour)
         self.findings.append((key, detail))
 
     def undecided(self, what):
